@@ -499,6 +499,45 @@ pub fn run(fam: &str, t: &mut Toks) -> Option<R<String>> {
                 t.done()?;
                 Ok(run_api(&entry, &modes, sol_ix, &c, post))
             }
+            "o_big" => {
+                // C06: predicates larger than any decoder can produce (node indices beyond u16), built here rather than
+                // sent over the line protocol: `o_big <nodes> <shape> <k> <entry> <modes>`; any result or typed error is fine
+                let n = t.nat()?;
+                let shape = t.tok()?.to_string();
+                let k = t.nat()?;
+                let entry = t.tok()?.to_string();
+                let modes = t.tok()?.to_string();
+                t.done()?;
+                if n > 200_000 || k > 65_535 || k >= n {
+                    return Err("o_big size".into());
+                }
+                let leaf = Program(essential_vm::asm::to_bytes([essential_vm::asm::Stack::Push(1).into()]).collect());
+                let leaf_ca = essential_hash::content_addr(&leaf);
+                let par = Program(essential_vm::asm::to_bytes([essential_vm::asm::Stack::Pop.into()]).collect());
+                let par_ca = essential_hash::content_addr(&par);
+                let mut nodes = vec![essential_types::predicate::Node { edge_start: essential_types::predicate::Edge::MAX, program_address: leaf_ca.clone() }; n];
+                let edges: Vec<u16> = (1..=k as u16).collect();
+                match shape.as_str() {
+                    "leaves" => {}
+                    // node 0 is the parent of nodes 1..=k
+                    "fan" if k > 0 => nodes[0] = essential_types::predicate::Node { edge_start: 0, program_address: par_ca.clone() },
+                    // the last node is the parent of nodes 1..=k
+                    "tailfan" if k > 0 => nodes[n - 1] = essential_types::predicate::Node { edge_start: 0, program_address: par_ca.clone() },
+                    _ => return Err("o_big shape".into()),
+                }
+                let pred = Predicate { nodes, edges: if shape == "leaves" { vec![] } else { edges } };
+                let addr = PredicateAddress { contract: ContentAddress([1; 32]), predicate: ContentAddress([2; 32]) };
+                let c = CheckCase {
+                    collect_all: true,
+                    sols: vec![Solution { predicate_to_solve: addr.clone(), predicate_data: vec![], state_mutations: vec![] }],
+                    preds: [(addr, Arc::new(pred))].into_iter().collect(),
+                    progs: [(leaf_ca, Arc::new(leaf)), (par_ca, Arc::new(par))].into_iter().collect(),
+                    state: MapState(Default::default(), Default::default()),
+                };
+                let r = if entry == "twopass" { run_two_pass(&c) } else { run_api(&entry, &modes, 0, &c, MapState(Default::default(), Default::default())) };
+                let _ = r;
+                Ok("ok".into())
+            }
             "o_ref" => {
                 // C01: expectation computed by the generator's reference semantics of the predicate graph
                 let exp = String::from_utf8(t.bytes()?).map_err(|e| e.to_string())?;
